@@ -1,14 +1,13 @@
 import Ypv.Props.C08
+#print axioms Ypv.C08.parse_write
+#print axioms Ypv.C08.parse_write_unescaped
+#print axioms Ypv.C08.parse_write_inferred
 #print axioms Ypv.C08.parse_write_basic
 #print axioms Ypv.C08.parse_write_basic_inferred
-#print axioms Ypv.C08.parse_write_dot
-#print axioms Ypv.C08.parse_write_partial
-#print axioms Ypv.C08.parse_write_unescaped_partial
-#print axioms Ypv.C08.parse_write_inferred_partial
 #print axioms Ypv.C08.eq_iff_segments
 #print axioms Ypv.C08.eq_written
-#print axioms Ypv.C08.render_fixed_point_partial
-#print axioms Ypv.C08.str_fixed_point_partial
+#print axioms Ypv.C08.render_fixed_point
+#print axioms Ypv.C08.str_fixed_point
 #print axioms Ypv.C08.pop_of_rendered
 #print axioms Ypv.C08.append_text
-#print axioms Ypv.C08.append_pop_partial
+#print axioms Ypv.C08.append_pop
